@@ -6,17 +6,21 @@ Open Scope nat_scope.
 
 (* ------------------------------------------------------------------ 1. listener *)
 (* an accept loop runs only in state Running *)
-Definition l_wf (l : listener) : Prop := l_loop l = true -> l_state l = LRunning /\ l_bind l = true.
+Definition l_wf (l : listener) : Prop :=
+  (l_loop l = true -> l_state l = LRunning /\ l_bind l = true) /\
+  (l_bind l = true -> l_state l = LClosed -> l_sock l = SClosed \/ l_sock l = SNone).
 
 Lemma l_wf_init b i : l_wf (l_init b i).
-Proof. unfold l_wf, l_init; cbn. discriminate. Qed.
+Proof. unfold l_wf, l_init; cbn. split; [discriminate|]. intros _ H; discriminate. Qed.
 
 Lemma l_wf_step l o : l_wf l -> l_wf (l_step l o).
 Proof.
-  unfold l_wf. intros H. destruct l as [bd st so lp fd dr]. cbn in H.
+  unfold l_wf. intros [H1 H2]. destruct l as [bd st so lp fd dr]. cbn in H1, H2.
   destruct o as [r|u| |]; cbn; unfold l_start, l_shutdown, l_stop_accept, l_close, l_drain, with_state; cbn;
-    destruct bd, st, so, lp; try destruct r; try destruct u; cbn; intros E; try (split; reflexivity); try discriminate; auto;
-    try (destruct (H eq_refl); discriminate).
+    destruct bd, st, so, lp; try destruct r; try destruct u; cbn;
+    (split; [intros E; try (split; reflexivity); try discriminate; auto; try (destruct (H1 eq_refl); discriminate)
+            |intros Eb Es; try discriminate; auto; try (left; reflexivity); try (right; reflexivity);
+             try (destruct (H2 eq_refl eq_refl); discriminate)]).
 Qed.
 
 Lemma l_wf_run ops : forall l, l_wf l -> l_wf (l_run l ops).
@@ -46,7 +50,7 @@ Qed.
 (* a closed listener of a well-formed history has no loop; for an arbitrary record we ask l_wf *)
 Lemma shutdown_closes l : l_wf l -> l_bind l = true -> closed_quiet (l_shutdown false l).
 Proof.
-  intros Hw Hb. destruct l as [bd st so lp fd dr]. cbn in Hb. subst. unfold l_wf in Hw. cbn in Hw.
+  intros [Hw _] Hb. destruct l as [bd st so lp fd dr]. cbn in Hb. subst. cbn in Hw.
   unfold closed_quiet, l_shutdown, l_close, l_drain, with_state; cbn.
   destruct st; cbn; split; try reflexivity.
   destruct lp; [|reflexivity]. destruct (Hw eq_refl). discriminate.
@@ -60,6 +64,46 @@ Theorem no_new_after_shutdown l ops :
 Proof.
   intros Hw Hb Hf. destruct (closed_quiet_run ops _ Hf (shutdown_closes l Hw Hb)) as [_ Hl].
   unfold l_accepts. rewrite Hl. reflexivity.
+Qed.
+
+Lemma l_bind_step l o : l_bind (l_step l o) = l_bind l.
+Proof.
+  destruct l as [bd st so lp fd dr]. destruct o as [r|u| |]; cbn;
+    unfold l_start, l_shutdown, l_stop_accept, l_close, l_drain, with_state; cbn;
+    destruct bd, st, so; try destruct r; try destruct u; reflexivity.
+Qed.
+
+Lemma l_bind_run ops : forall l, l_bind (l_run l ops) = l_bind l.
+Proof.
+  induction ops as [|o ops IH]; intros l; [reflexivity|].
+  change (l_run l (o :: ops)) with (l_run (l_step l o) ops). rewrite IH. apply l_bind_step.
+Qed.
+
+(* graceful stop: at the moment the drain starts, and ever after (short of Start(restart)), a connect is REFUSED - it is
+   not left in the backlog of a socket nobody accepts from *)
+Lemma closed_refuses l : l_wf l -> l_bind l = true -> l_state l = LClosed -> l_connect l = CRefused.
+Proof.
+  intros [_ Hw] Hb Hs. unfold l_connect. destruct (Hw Hb Hs) as [-> | ->]; reflexivity.
+Qed.
+
+Theorem refused_during_and_after_drain l ops :
+  l_wf l -> l_bind l = true ->
+  forallb (fun o => negb (is_restart o)) ops = true ->
+  (exists l', l_at_drain false l = Some l' /\ l_connect l' = CRefused) /\
+  l_connect (l_run (l_shutdown false l) ops) = CRefused.
+Proof.
+  intros Hw Hb Hf. split.
+  - unfold l_at_drain. rewrite Hb. exists (l_close l). split; [reflexivity|].
+    assert (Hw' : l_wf (l_close l)) by (apply (l_wf_step l OpClose); exact Hw).
+    apply closed_refuses; [exact Hw'| |].
+    + destruct l as [bd st so lp fd dr]; cbn in *; subst. unfold l_close, with_state; cbn. destruct st; reflexivity.
+    + destruct l as [bd st so lp fd dr]; cbn in *; subst. unfold l_close, with_state; cbn. destruct st; reflexivity.
+  - assert (Hw1 : l_wf (l_shutdown false l)) by (apply (l_wf_step l (OpShutdown false)); exact Hw).
+    assert (Hw2 : l_wf (l_run (l_shutdown false l) ops)) by (apply l_wf_run; exact Hw1).
+    destruct (closed_quiet_run ops _ Hf (shutdown_closes l Hw Hb)) as [Hs _].
+    apply closed_refuses; [exact Hw2| |exact Hs].
+    rewrite l_bind_run. destruct l as [bd st so lp fd dr]; cbn in *; subst.
+    unfold l_shutdown, l_close, l_drain, with_state; cbn. destruct st; reflexivity.
 Qed.
 
 Definition stopped_quiet (l : listener) : Prop :=
@@ -89,7 +133,7 @@ Lemma stop_accept_quiet l : l_wf l -> l_bind l = true ->
   stopped_quiet (l_shutdown true l) /\ l_fd (l_shutdown true l) = l_fd l /\
   (l_sock l <> SClosed -> l_sock (l_shutdown true l) <> SClosed).
 Proof.
-  intros Hw Hb. destruct l as [bd st so lp fd dr]. cbn in Hb. subst. unfold l_wf in Hw. cbn in Hw.
+  intros [Hw _] Hb. destruct l as [bd st so lp fd dr]. cbn in Hb. subst. cbn in Hw.
   unfold stopped_quiet, l_shutdown, l_stop_accept, l_drain, with_state; cbn.
   destruct st; cbn; repeat split; auto; try (destruct so; cbn; congruence);
     destruct lp; try reflexivity; destruct (Hw eq_refl); discriminate.
